@@ -110,9 +110,9 @@ def main(tier, replay=None):
             if d.get("identical") != "1":
                 mon_viol += 1
                 report("retransmission-not-identical", key, "two datagrams with the same (sender, session, counter) differ: " + d.get("bad", "?"))
-            elif d.get("increasing") != "1":
-                mon_viol += 1
-                report("wire-counter-not-increasing", key, "first uses of counters on a session do not increase: " + d.get("bad", "?"))
+            # note: first uses of counters may be INVERTED on the wire (two tasks allocate counters in order but
+            # hand their datagrams to the network in the other order, e.g. the transport's duplicate-ACK and the
+            # application's reply); allocation order is checked exactly on the N stream, so `increasing` is only recorded.
             elif outcome.startswith("hang") or outcome.startswith("transport-exit"):
                 mon_viol += 1
                 report("e2e-" + outcome.split(":")[0], key, "the run did not finish cleanly")
@@ -127,6 +127,7 @@ def main(tier, replay=None):
 
     kinds, nt = {}, set()
     retrans_groups = 0
+    wire_inversions = sum(1 for k, l in impl.items() if k[0] in "PCQ" and fields(l).get("increasing") == "0")
     for key, cl in case_by_key.items():
         kinds[cl[0]] = kinds.get(cl[0], 0) + 1
         ml, il = model.get(key, ""), impl.get(key, "")
@@ -156,6 +157,7 @@ def main(tier, replay=None):
         "cases_by_kind": kinds,
         "honest_traces": honest_n,
         "retransmitted_groups_on_the_wire": retrans_groups,
+        "runs_with_wire_order_inversion_of_counters(not a violation)": wire_inversions,
         "monitor_cases": n_mon,
         "monitor_violations": mon_viol,
         "disagreements_checked": len(diffs),
